@@ -56,7 +56,14 @@ REPS = {   # two representatives per shape
 
 
 def fcall(fn, *args): return {"e": "fcall", "fn": fn, "as": list(args)}
-def func(name, params, body): return {"name": name, "params": list(params), "body": body}
+def func(name, params, body, ret=""):
+    """params: names, or (name, type[, required[, default value]]) tuples; types: any int float str bool [int] int?"""
+    names, pts = [], []
+    for q in params:
+        q = (q,) if isinstance(q, str) else tuple(q)
+        names.append(q[0])
+        pts.append({"ty": q[1] if len(q) > 1 else "any", "req": bool(q[2]) if len(q) > 2 else False, "hasdef": len(q) > 3, "def": q[3] if len(q) > 3 else vnull()})
+    return {"name": name, "params": names, "ptypes": pts, "body": body, "ret": ret}
 def calln(fn, *args): return {"e": "calln", "fn": fn, "as": list(args)}
 def callh(fn, a, *rest, f=""): return {"e": "callh", "fn": fn, "as": [a] + list(rest), "f": f}
 def pipe(x, fn, *args, bare=False): return {"e": "pipe", "x": x, "fn": fn, "as": list(args), "bare": bare}
@@ -467,7 +474,7 @@ class Gen:
 
 def all_programs(tier, seed):
     rnd = random.Random(seed)
-    progs = operator_table() + precedence_table() + control_table() + optimizer_table() + match_table() + string_table() + status_table() + function_table() + special_numbers_table() + builtin_table() + module_table() + element_table() + equality_table() + validation_table()
+    progs = operator_table() + precedence_table() + control_table() + optimizer_table() + match_table() + string_table() + status_table() + function_table() + special_numbers_table() + builtin_table() + module_table() + element_table() + equality_table() + validation_table() + typed_function_table()
     g = Gen(rnd)
     for _ in range(600 if tier == "quick" else 8000):
         progs.append(g.program())
@@ -1148,6 +1155,47 @@ def validation_table():
     P([check_(fcall("ok", I(-1))), ret(I(1))], ["declared-function", "fails"], funcs=(ok,))
     P([check_(fcall("nothing", I(1))), ret(I(1))], ["declared-function", "answers-nothing"], funcs=(nothing,))
     P([guard_(bin_(">", var("q"), I(0)), 422, "positive"), check_(calln("contains", S("a"), S("b"))), ret(I(1))], ["after-a-guard-that-holds"], [("q", vint(1))])
+    return out
+
+
+# ---- declared types of function parameters and results ----------------------------------------------------------------
+def typed_function_table():
+    out = []
+    I = lambda n: lit(vint(n))
+    F = lambda x: lit(vfloat(x))
+    S = lambda x: lit(vstr(x))
+    N = lit(vnull())
+    P = lambda funcs, body, tags, vars_=(): out.append(prog("", body, vars_, ["typed-functions"] + tags, funcs))
+    values = {"int": I(3), "float": F(2.5), "whole-float": F(4.0), "negative-whole-float": F(-2.0), "str": S("s"), "bool": lit(vbool(True)), "null": N, "array-of-int": arr([I(1), I(2)]),
+              "array-of-mixed": arr([I(1), S("x")]), "array-of-whole-floats": arr([F(1.0), I(2)]), "empty-array": arr([]), "object": obj([("a", I(1))])}
+    for ty in ("int", "float", "str", "bool", "[int]", "int?", "any"):
+        echo = func("echo", [("a", ty)], [ret(var("a"))])
+        back = func("back", [("a", "any")], [ret(var("a"))], ret=ty)
+        for vn, v in values.items():
+            P([echo], [ret(fcall("echo", v))], ["parameter", ty, vn])
+            P([back], [ret(fcall("back", v))], ["result", ty, vn])
+    # a whole float given for an int parameter is that integer from then on
+    half = func("half", [("a", "int")], [ret(bin_("/", var("a"), I(2)))])
+    P([half], [ret(arr([fcall("half", F(7.0)), fcall("half", I(7)), bin_("/", F(7.0), I(2))]))], ["int-parameter-makes-the-float-an-integer"])
+    P([half], [ret(fcall("half", var("q")))], ["int-parameter-makes-the-float-an-integer", "from-input"], [("q", vfloat(9.0))])
+    # required, optional, default
+    req = func("req", [("a", "int", True), ("b", "int", False), ("c", "int", False, vint(7))], [ret(arr([var("a"), var("b"), var("c")]))])
+    P([req], [ret(fcall("req", I(1), I(2), I(3)))], ["required-optional-default", "all-given"])
+    P([req], [ret(fcall("req", I(1), I(2)))], ["required-optional-default", "default-used"])
+    P([req], [ret(fcall("req", I(1)))], ["required-optional-default", "optional-is-null"])
+    P([req], [ret(fcall("req"))], ["required-optional-default", "required-missing"])
+    P([req], [ret(fcall("req", I(1), I(2), I(3), I(4)))], ["required-optional-default", "one-too-many"])
+    P([req], [ret(fcall("req", N, N, N))], ["required-optional-default", "nulls-given"])
+    P([req], [ret(fcall("req", I(1), S("x")))], ["required-optional-default", "optional-of-the-wrong-type"])
+    dflt = func("dflt", [("a", "str", False, vstr("dv")), ("b", "float", False, vfloat(1.5))], [ret(arr([var("a"), var("b")]))])
+    P([dflt], [ret(arr([fcall("dflt"), fcall("dflt", S("x")), fcall("dflt", S("x"), I(2))]))], ["defaults"])
+    # results
+    P([func("f", [], [decl("t", I(1))], ret="int")], [ret(fcall("f"))], ["result", "nothing-returned-is-null"])
+    P([func("f", [("a", "int")], [if_(bin_(">", var("a"), I(0)), [ret(S("positive"))]), ret(var("a"))], ret="int")], [ret(arr([fcall("f", I(-1))]))], ["result", "depends-on-the-path", "good"])
+    P([func("f", [("a", "int")], [if_(bin_(">", var("a"), I(0)), [ret(S("positive"))]), ret(var("a"))], ret="int")], [ret(arr([fcall("f", I(1))]))], ["result", "depends-on-the-path", "bad"])
+    P([func("fact", [("n", "int", True)], [if_(bin_("<=", var("n"), I(1)), [ret(I(1))]), ret(bin_("*", var("n"), fcall("fact", bin_("-", var("n"), I(1)))))], ret="int")], [ret(fcall("fact", I(5)))], ["recursion-typed"])
+    P([func("f", [("a", "int")], [ret(var("a"))], ret="int")], [ret(pipe(F(6.0), "f", bare=True))], ["piped-argument"])
+    P([half], [ret(arr([pipe(F(7.0), "half", bare=True), fcall("half", F(7.0))]))], ["piped-argument", "same-as-a-direct-call"])
     return out
 
 
